@@ -343,4 +343,55 @@ example : norm2 ([1, 0, 0] : List ℝ) = 1 ∧ norm2 ([0, 1, 0] : List ℝ) = 1 
     (-1 < dot ([1, 0, 0] : List ℝ) [0, 1, 0] ∧ dot ([1, 0, 0] : List ℝ) [0, 1, 0] < 1) := by
   norm_num [norm2, dot, sumL_eq_sum]
 
+/-! ## interpolation between quaternions: `q` and `-q` are the same rotation -/
+
+/-- interpolating between two quaternions that describe the same rotation stays at that rotation for every `λ`
+    (as repaired: the 4-vectors used to be mixed as given, and the midpoint of `q` and `-q` is the null vector) -/
+theorem interp_quat_same_rotation (a : List ℝ) (l : ℝ) (ha : a.length = 4) (na : norm2 a = 1) :
+    interpQ Real.pi a (vneg a) l = some a ∧ interpQ Real.pi a a l = some a := by
+  have hself : dist2Q Real.pi a a = 0 := (zero_iff_quat a a ha ha na na).2 (Or.inl rfl)
+  have hneg : dist2Q Real.pi a (vneg a) = 0 := by rw [(qsign_invariant a a rfl).1, hself]
+  have hm1 : matchSign a (vneg a) = a := by
+    rw [matchSign_eq]
+    unfold vneg
+    have hdot : dot a (a.map (fun x => -x)) = -1 := by
+      rw [dot_vneg_right]; unfold norm2 at na; rw [na]
+    rw [if_pos (by rw [hdot]; norm_num), List.map_map]
+    have : ((fun x : ℝ => -x) ∘ fun x => -x) = id := by funext x; simp
+    rw [this, List.map_id]
+  have hm2 : matchSign a a = a := by
+    rw [matchSign_eq]
+    have hdot : dot a a = 1 := na
+    rw [if_neg (by rw [hdot]; norm_num)]
+  unfold interpQ
+  rw [hneg, hself, hm1, hm2, interpManifold_zero, lerpV_self, normalize_of_unit a na]
+  exact ⟨rfl, rfl⟩
+
+/-- whatever comes out of the quaternion interpolation is a unit quaternion -/
+theorem interp_quat_on_manifold (a b v : List ℝ) (l : ℝ) (hab : a.length = b.length)
+    (hd : 0 < dist2Q Real.pi a b) (h : interpQ Real.pi a b l = some v) : norm2 v = 1 := by
+  unfold interpQ at h
+  exact interp_manifold _ _ _ _ _ hd h
+
+/-- the end points: `λ = 0` gives the first value, `λ = 1` the second one up to the sign that does not change the
+    rotation -/
+theorem interp_quat_ends (a b : List ℝ) (hab : a.length = b.length) (na : norm2 a = 1) (nb : norm2 b = 1)
+    (hd : 0 < dist2Q Real.pi a b) :
+    interpQ Real.pi a b 0.0 = some a ∧ (interpQ Real.pi a b 1.0 = some b ∨ interpQ Real.pi a b 1.0 = some (vneg b)) := by
+  have hl : a.length = (matchSign a b).length := by rw [matchSign_length, hab]
+  have nm : norm2 (matchSign a b) = 1 := by rw [matchSign_norm2, nb]
+  have hle := quat_le_half_pi a b
+  have h0 : lerpV a (matchSign a b) 0.0 = a := lerpV_zero _ _ hl
+  have h1 : lerpV a (matchSign a b) 1.0 = matchSign a b := lerpV_one _ _ hl
+  unfold interpQ
+  rw [interpManifold_unit _ _ _ _ hd hle (by rw [h0, na]),
+    interpManifold_unit _ _ _ _ hd hle (by rw [h1, nm]), h0, h1,
+    normalize_of_unit a na, normalize_of_unit _ nm]
+  refine ⟨rfl, ?_⟩
+  rw [matchSign_eq]
+  unfold vneg
+  split_ifs
+  · exact Or.inr rfl
+  · exact Or.inl rfl
+
 end Cv.C18
